@@ -168,6 +168,22 @@ func headerValue(typ, format, cls string) (string, bool) {
 	case "empty":
 		return "", true
 	case "nonutf8":
+		// not valid UTF-8, but with the byte shape of a well-formed value of the format (a validator that
+		// only looks at the shape must not let it through)
+		switch format {
+		case "uuid":
+			return "\xff\xfe3e4567-e89b-12d3-a456-426614174000", true
+		case "email":
+			return "j\xf6rg@example.com", true
+		case "date-time":
+			return "2024-03-01T12:30:00\xff", true
+		}
+		if typ == "string" || typ == "" {
+			return "\xff\xfehello", true
+		}
+		if typ == "array" {
+			return "", false // as for "bad": an array of strings has no clear-cut invalid form
+		}
 		return "\xff\xfe", true
 	}
 	ok := cls == "ok"
